@@ -108,6 +108,21 @@ def run(ctx):
             if a != sp:
                 failing.append(dict(profile=prof, cmd=c, impl=a, rv32im=sp,
                                     why="MathOp::operate differs from the ISA result"))
+    # the mnemonic -> operator table of the value analysis (Inst::math_op / scalar_op) against the model and the manual
+    mn = sorted(set(asm_manual.R_OPS) | set(asm_manual.I_OPS) | set(asm_manual.LOADS) | set(asm_manual.STORES) | set(asm_manual.BR) |
+                set(["lui", "auipc", "jal", "jalr", "ecall", "ebreak", "fence", "mv", "li", "la", "nop", "neg", "not", "seqz", "snez", "ret", "call",
+                     "addw", "subw", "divw", "remw", "remuw", "divuw", "mulw", "sllw", "addiw", "csrrw", "csrrs", "uret", "frob"]))
+    mn += [m.upper() for m in mn[:12]]
+    icmds = ["instop " + lib.enc(m) for m in mn]
+    ii, im = lib.run_impl(ctx, icmds, tag="instop-impl"), lib.run_model(ctx, icmds, tag="instop-model")
+    evaluations += len(icmds)
+    for m, a, b in zip(mn, ii, im):
+        if a != b:
+            disagreements.append(dict(profile="debug", cmd="instop " + m, impl=a, model=b))
+        want = m.lower() if m.lower() in asm_manual.R_OPS else asm_manual.I_OPS.get(m.lower())
+        if want is not None and a.split(" ")[0] != want:
+            failing.append(dict(profile="debug", cmd="instop " + m, impl=a, rv32im=want,
+                                why="the value analysis folds mnemonic %r with operator %r, the manual says %r" % (m, a.split(" ")[0], want)))
     forms, dbad, ddis = decode_check(ctx)
     evaluations += len(forms)
     for d in dbad:
